@@ -1,12 +1,270 @@
-use crate::util::Report;
-use crate::Ctx;
-use serde_json::Value;
+//! C05 — object partitioning and source packet layout follow RFC 6330 4.4.1.2.
 
-pub fn run(_ctx: &Ctx, _rep: &mut Report) {
-    eprintln!("not implemented yet");
-    std::process::exit(2);
+use crate::codec::{data_class_from, make_data, DataClass};
+use crate::reference as rf;
+use crate::util::{catch, fnv_u64s, run_items, run_sharded, simple_failure, Report, SplitMix, Stats, Tier};
+use crate::Ctx;
+use proptest::prelude::*;
+use raptorq::{Decoder, Encoder, EncodingPacket, ObjectTransmissionInformation, SourceBlockDecoder};
+use serde_json::{json, Value};
+
+#[derive(Debug, Clone, PartialEq)]
+pub struct Case {
+    al: usize,
+    /// T / Al
+    tu: usize,
+    n: usize,
+    kt: usize,
+    z: usize,
+    /// bytes in the last symbol, 1..=T
+    r: usize,
+    class: u64,
+    seed: u64,
 }
 
-pub fn replay(_sub: &str, _case: &Value) -> Result<(), String> {
-    Err("not implemented".into())
+impl Case {
+    fn t(&self) -> usize {
+        self.tu * self.al
+    }
+    fn f(&self) -> usize {
+        (self.kt - 1) * self.t() + self.r
+    }
+}
+
+fn strategy() -> impl Strategy<Value = Case> {
+    (
+        prop_oneof![Just(1usize), Just(2usize), Just(3usize), Just(4usize), Just(8usize)],
+        1usize..=24,
+        any::<u64>(),
+        1usize..=90,
+        any::<u64>(),
+        any::<u64>(),
+        0u64..5,
+        any::<u64>(),
+        0u8..4,
+    )
+        .prop_map(|(al, tu, rn, kt, rz, rr, class, seed, bias)| {
+            // bias towards (T/Al) mod N != 0 and Kt mod Z != 0
+            let mut n = 1 + (rn % tu as u64) as usize;
+            if bias & 1 == 1 && tu > 2 {
+                // pick an N that does not divide T/Al if one exists
+                for cand in (2..tu).map(|d| 2 + ((d - 2) + (rn % tu as u64) as usize) % (tu - 2)) {
+                    if tu % cand != 0 {
+                        n = cand;
+                        break;
+                    }
+                }
+            }
+            let zmax = kt.min(12);
+            let mut z = 1 + (rz % zmax as u64) as usize;
+            if bias & 2 == 2 && zmax > 2 {
+                for cand in (2..=zmax).map(|d| 2 + ((d - 2) + (rz % zmax as u64) as usize) % (zmax - 1)) {
+                    if kt % cand != 0 {
+                        z = cand;
+                        break;
+                    }
+                }
+            }
+            let t = tu * al;
+            let r = if rr % 3 == 0 { t } else { 1 + (rr % t as u64) as usize };
+            Case { al, tu, n, kt, z, r, class, seed }
+        })
+}
+
+fn check(c: &Case, st: &mut Stats) -> Result<(), String> {
+    let (t, f) = (c.t(), c.f());
+    let data = make_data(data_class_from(if c.class < 3 { 4 } else { 0 }), c.seed, f);
+    let want = rf::object_layout(&data, t, c.z, c.n, c.al);
+    let (kl, ks, zl, zs) = rf::partition(c.kt as u64, c.z as u64);
+    let (tl, ts, nl, ns) = rf::partition(c.tu as u64, c.n as u64);
+    let c_sub = c.n > 1 && tl != ts;
+    let c_blk = c.z > 1 && kl != ks;
+    let c_pad = f % t != 0;
+    st.class_if(c_sub, "N>1 with TL != TS");
+    st.class_if(c_blk, "Z>1 with KL != KS");
+    st.class_if(c_pad, "F mod T != 0");
+    st.class_if(c.n > 1, "N>1");
+    st.class_if(c.z > 1, "Z>1");
+    if c_sub || c_blk || c_pad {
+        st.nt(fnv_u64s(&[f as u64, t as u64, c.z as u64, c.n as u64, c.al as u64]));
+    }
+    st.sample(|| json!({"F": f, "T": t, "Z": c.z, "N": c.n, "Al": c.al, "Kt": c.kt, "partition_blocks": [kl, ks, zl, zs], "partition_subblocks": [tl, ts, nl, ns]}));
+
+    // the library's Partition function
+    let got = raptorq::partition(c.kt as u32, c.z as u32);
+    if (got.0 as u64, got.1 as u64, got.2 as u64, got.3 as u64) != (kl, ks, zl, zs) {
+        return Err(format!("partition({}, {}) = {got:?}, RFC Partition gives {:?}", c.kt, c.z, (kl, ks, zl, zs)));
+    }
+    let got = raptorq::partition(c.tu as u32, c.n as u32);
+    if (got.0 as u64, got.1 as u64, got.2 as u64, got.3 as u64) != (tl, ts, nl, ns) {
+        return Err(format!("partition({}, {}) = {got:?}, RFC Partition gives {:?}", c.tu, c.n, (tl, ts, nl, ns)));
+    }
+    let cfg = ObjectTransmissionInformation::new(f as u64, t as u16, c.z as u8, c.n as u16, c.al as u8);
+    // block offsets
+    let offs = raptorq::calculate_block_offsets(&data, &cfg);
+    let mut start = 0usize;
+    if offs.len() != c.z {
+        return Err(format!("calculate_block_offsets: {} blocks, expected Z={}", offs.len(), c.z));
+    }
+    for (zi, &(s, e)) in offs.iter().enumerate() {
+        let k = if (zi as u64) < zl { kl } else { ks } as usize;
+        if (s, e) != (start, start + k * t) {
+            return Err(format!("calculate_block_offsets: block {zi} spans [{s},{e}), RFC layout gives [{},{})", start, start + k * t));
+        }
+        start += k * t;
+    }
+    // source packets of the whole object
+    let enc = Encoder::new(&data, cfg);
+    if enc.get_config() != cfg {
+        return Err("encoder does not report the configuration it was given".into());
+    }
+    let pkts = enc.get_encoded_packets(0);
+    let total: usize = want.iter().map(|b| b.len()).sum();
+    if pkts.len() != total {
+        return Err(format!("{} source packets, expected sum of K = {total}", pkts.len()));
+    }
+    let mut idx = 0;
+    for (zi, blk) in want.iter().enumerate() {
+        for (m, sym) in blk.iter().enumerate() {
+            let p = &pkts[idx];
+            idx += 1;
+            if p.payload_id().source_block_number() as usize != zi || p.payload_id().encoding_symbol_id() as usize != m {
+                return Err(format!(
+                    "packet {idx}: id (SBN {}, ESI {}), expected (SBN {zi}, ESI {m})",
+                    p.payload_id().source_block_number(),
+                    p.payload_id().encoding_symbol_id()
+                ));
+            }
+            if p.data().len() != t {
+                return Err(format!("packet (SBN {zi}, ESI {m}) has {} payload bytes, expected T={t}", p.data().len()));
+            }
+            if p.data() != &sym[..] {
+                return Err(format!(
+                    "F={f} T={t} Z={} N={} Al={}: payload of (SBN {zi}, ESI {m}) differs from the RFC 4.4.1.2 layout",
+                    c.z, c.n, c.al
+                ));
+            }
+        }
+    }
+    // the decoder inverts exactly this layout: (a) all source packets
+    let mut dec = Decoder::new(cfg);
+    let mut out = None;
+    for (i, p) in pkts.iter().enumerate() {
+        if out.is_some() {
+            return Err(format!("decoder answered after {i} of {total} source packets"));
+        }
+        out = dec.decode(p.clone());
+    }
+    if out.as_deref() != Some(&data[..]) {
+        return Err(format!("F={f} T={t} Z={} N={} Al={}: decoding all source packets does not return the object", c.z, c.n, c.al));
+    }
+    // (b) an erasure pattern repaired by repair packets
+    let mut rng = SplitMix::new(c.seed ^ 0x77);
+    let mut dec = Decoder::new(cfg);
+    let mut out = None;
+    let mut feed: Vec<EncodingPacket> = vec![];
+    for blk in enc.get_block_encoders() {
+        let src = blk.source_packets();
+        let k = src.len();
+        let erase = 1 + rng.below(k.min(4) as u64) as usize;
+        let mut order: Vec<usize> = (0..k).collect();
+        rng.shuffle(&mut order);
+        let erased: Vec<usize> = order[..erase].to_vec();
+        for (i, p) in src.into_iter().enumerate() {
+            if !erased.contains(&i) {
+                feed.push(p);
+            }
+        }
+        feed.extend(blk.repair_packets(rng.below(500) as u32, erase as u32 + 2));
+    }
+    rng.shuffle(&mut feed);
+    for p in feed {
+        if let Some(o) = dec.decode(p) {
+            out = Some(o);
+        }
+    }
+    match out {
+        Some(o) if o == data => {}
+        Some(_) => return Err(format!("F={f} T={t} Z={} N={} Al={}: decoding with erasures returns different bytes", c.z, c.n, c.al)),
+        None => st.class("erasure decode undecodable with 2 spare symbols per block (counted, not judged)"),
+    }
+    // (c) per-block decoder returns the zero-padded block in object order
+    let zi = rng.below(c.z as u64) as usize;
+    let k = want[zi].len();
+    let mut bd = SourceBlockDecoder::new(zi as u8, &cfg, (k * t) as u64);
+    let got = bd.decode(enc.get_block_encoders()[zi].source_packets());
+    let (s, e) = offs[zi];
+    let mut blk_bytes: Vec<u8> = data[s.min(f)..e.min(f)].to_vec();
+    blk_bytes.resize(k * t, 0);
+    if got.as_deref() != Some(&blk_bytes[..]) {
+        return Err(format!("block decoder for block {zi} does not return the zero-padded block bytes"));
+    }
+    Ok(())
+}
+
+fn to_json(c: &Case) -> Value {
+    json!({"al": c.al, "tu": c.tu, "n": c.n, "kt": c.kt, "z": c.z, "r": c.r, "class": c.class, "seed": c.seed})
+}
+
+fn from_json(v: &Value) -> Case {
+    let g = |k: &str| v[k].as_u64().unwrap();
+    Case { al: g("al") as usize, tu: g("tu") as usize, n: g("n") as usize, kt: g("kt") as usize, z: g("z") as usize, r: g("r") as usize, class: g("class"), seed: g("seed") }
+}
+
+fn signature(_: &Case, msg: &str) -> String {
+    let kind = if msg.contains("panic") {
+        "panic"
+    } else if msg.contains("partition(") {
+        "partition"
+    } else if msg.contains("calculate_block_offsets") {
+        "offsets"
+    } else if msg.contains("payload of") || msg.contains("payload bytes") || msg.contains("packet ") {
+        "packets"
+    } else if msg.contains("decod") {
+        "decoder"
+    } else {
+        "other"
+    };
+    format!("layout:{kind}")
+}
+
+pub fn run(ctx: &Ctx, rep: &mut Report) {
+    rep.rule = "generated (F, T, Z, N, Al, data): Al in {1,2,3,4,8}, T/Al in 1..=24, N in 1..=T/Al, Kt in 1..=90, Z in 1..=min(Kt,12), F=(Kt-1)*T+r, biased to Kt mod Z != 0 and (T/Al) mod N != 0; data position-coded or random. Plus an exhaustive sweep of all (Kt <= 8 quick / 20 thorough, Z <= Kt, T/Al <= 5 quick / 8 thorough, N <= T/Al, Al in {1,4}). Oracle: reference layout by index formula (Partition, block/sub-block/symbol offsets) for every source packet's (SBN, ESI, payload); partition() and calculate_block_offsets() against the reference; then the decoder is fed all source packets, an erasure pattern + repair packets, and one block decoder, and must return the object. Non-trivial = N>1 with TL != TS, or Z>1 with KL != KS, or F mod T != 0; distinct by (F,T,Z,N,Al).".into();
+    let n = ctx.tier.pick(20_000u64, 400_000);
+    rep.absorb("generated", run_sharded("C05", "generated", ctx.seed, n, 32, strategy, check, to_json, signature));
+    // exhaustive small sweep
+    let (kt_max, tu_max) = match ctx.tier {
+        Tier::Quick => (8usize, 5usize),
+        Tier::Thorough => (20, 8),
+    };
+    let mut items = vec![];
+    let mut rng = SplitMix::new(crate::util::mix(ctx.seed, 55));
+    for al in [1usize, 4] {
+        for tu in 1..=tu_max {
+            for n in 1..=tu {
+                for kt in 1..=kt_max {
+                    for z in 1..=kt {
+                        for r in [1usize, tu * al] {
+                            items.push(Case { al, tu, n, kt, z, r, class: rng.below(5), seed: rng.next_u64() });
+                        }
+                    }
+                }
+            }
+        }
+    }
+    let mut out = run_items(&items, |c, st| {
+        st.eval();
+        let r = match catch(|| check(c, st)) {
+            Ok(r) => r,
+            Err(p) => Err(format!("panic: {p}")),
+        };
+        r.map_err(|m| simple_failure("sweep", m.clone(), signature(c, &m), to_json(c)))
+    });
+    out.failures.truncate(1);
+    rep.absorb("sweep", out);
+    let _ = DataClass::Random;
+}
+
+pub fn replay(_sub: &str, case: &Value) -> Result<(), String> {
+    check(&from_json(case), &mut Stats::new())
 }
